@@ -1,7 +1,7 @@
 """C26 graph algorithms = their reference definitions: Algo.tla / MC_Algo.tla / Algo_Trace.tla, harness bin algo."""
 from . import algo_common as A
 
-ONLY = "only=Comp,Path,Flow,Mst,Topo,Rep"
+ONLY = "only=Comp,Path,Flow,Mst,Topo,Rep,Leap"
 DESIGN_INV = "SccRefinesWcc CostsBound CutBounds MstIsKruskal LccAgree"
 
 
@@ -31,7 +31,17 @@ def run(ctx):
                "neighbours; triangles ignore direction and multiplicity",
                "quick tier: <=3 nodes/<=3 relationships and 4 nodes/<=2 relationships with weights {1,2}, <=3 nodes/<=2 relationships "
                "with weights {1,2,3}; thorough: every multigraph with <=3 nodes/<=4 relationships and <=4 nodes/<=3 relationships, "
-               "weights {1,2,3} up to 3 (2 for 4 nodes) relationships and {1,2} at the largest relationship count")
+               "weights {1,2,3} up to 3 (2 for 4 nodes) relationships and {1,2} at the largest relationship count; the largest "
+               "families are replayed in ONE insertion order per graph (ascending or descending by a parity of the graph)",
+               "projections: every node carries N, node v carries O<v> and X<u> for u # v, nobody carries Z; relationship types T/U; "
+               "weight properties w (integer) and w2 = 4 - w (float); CALL procedures are asked for (label, type) in "
+               "{none, each label} x {none, T, U} where they take them and for weight property none / w / w2 where they take one; "
+               "a relationship without the property does not occur (the 1.0 default of build_view is not exercised)",
+               "count_triangles_leapfrog (documented: for each relationship (a,b) the number of nodes c with b->c and c->a) is called "
+               "after compact_adjacency only: it intersects the frozen adjacency tier and documents that write-buffer entries are "
+               "ignored; CALL algo.wcc / triangleCount are repeated on the compacted store (nothing is deleted, so no frozen ghosts)",
+               "5/6-node multigraphs (7/9 relationships) come from TLC -simulate (seeded) and are checked against the same brute-force "
+               "definitions; PageRank is limited to 2 iterations there (32-bit TLC integers)")
     # label / type / weight projections asked through CALL (two relationship types, label subsets): prefix "proj";
     # larger graphs, still against the brute-force definitions: random 5/6-node multigraphs drawn by TLC -simulate: prefix "mid"
     pscripts = A.graphs(ctx, pfam, "proj")
